@@ -173,6 +173,11 @@ pub fn deviations() -> Vec<Dev> {
         let pu = c.probe_in_user;
         c.probe().dic_form = if pu { format!("U{}", idx) } else { format!("{}", idx) };
     }));
+    d.push(dev("dic_form", "dictionary form = system word with the probe's own number".into(), |c| {
+        // for a user dictionary this is a *different* word (system word k vs user word k)
+        let idx = c.probe_index();
+        c.probe().dic_form = format!("{}", idx);
+    }));
     d.push(dev("dic_form", "dictionary form = user word (U-reference)".into(), |c| {
         if c.probe_in_user {
             c.probe().dic_form = "U0".into();
